@@ -178,8 +178,10 @@ type Codec struct {
 	// Gen builds a random valid value with the implementation's own types and returns its
 	// dump and its Marshal; ok=false means "no value this time".
 	Gen func(r *Rand) (Dump, []byte, bool)
-	// Small codecs get the exhaustive short-input leg.
+	// Small codecs get the exhaustive short-input leg (all inputs of length <= 1, and length 2
+	// over an alphabet); Tiny ones additionally get ALL 65536 two-byte inputs in the thorough tier.
 	Small bool
+	Tiny  bool
 	// Corpus: fixed inputs run first (kind "corpus"); CorpusValid: fixed inputs that are
 	// well-formed encodings and must therefore be accepted (kind "cvalid"). Truncations and
 	// trailing-garbage variants of both are run too (kinds "ctrunc"/"ctrail"), so that a
@@ -258,9 +260,9 @@ func Run(t *testing.T, codecs []*Codec) {
 	t.Helper()
 	out := NewOut(t)
 	thorough := Thorough()
-	nValid, nRand := 10, 60
+	nValid, nRand := 7, 40
 	if thorough {
-		nValid, nRand = 300, 4000
+		nValid, nRand = 120, 1500
 	}
 	for ci, c := range codecs {
 		rnd := NewRand(Seed()*1000003 + uint64(c.ID)*7919 + uint64(ci))
@@ -335,11 +337,17 @@ func Run(t *testing.T, codecs []*Codec) {
 			for a := 0; a < 256; a++ {
 				out.Emit(observe(c, "exh", []byte{byte(a)}))
 			}
-			alpha := []int{0, 1, 2, 3, 4, 8, 9, 20, 21, 22, 23, 25, 26, 27, 47, 64, 127, 128, 253, 254, 255}
+			alpha := []int{0, 1, 2, 3, 4, 8, 20, 22, 23, 25, 32, 64, 128, 253, 254, 255}
 			if thorough {
+				step := 4
+				if c.Tiny {
+					step = 1
+				}
 				alpha = alpha[:0]
 				for a := 0; a < 256; a++ {
-					alpha = append(alpha, a)
+					if a%step == 0 || a < 34 || a > 250 || (a >= 60 && a <= 66) || (a >= 126 && a <= 130) {
+						alpha = append(alpha, a)
+					}
 				}
 			}
 			for _, a := range alpha {
